@@ -21,9 +21,35 @@ TRANSACTION_TYPE = 4                                       # USB 3.2 table 8-2: 
 def run(ctx):
     ir = ctx.ir('TransactionPacketGenerator', 'usb3.protocol.transaction')
     fsm = ctx.the_fsm(ir)
+    reqs_ = ['self.interface.send_' + k for k in SPEC]
+    # the dispatch state by role: the state whose outgoing edges test the send_* requests
+    cand = {e.src for e in fsm.edges if any(q.has(e, r) for r in reqs_)}
+    ctx.need(len(cand) == 1, 'the dispatch state (its edges test the send_* requests; found %s)' % sorted(map(str, cand)))
+    disp = cand.pop()
     rd = q.raises(ir, 'self.interface.ready')
-    ctx.need(len(rd) == 1 and rd[0].state, 'the dispatch state (drives interface.ready)')
-    disp = q.state_of(rd[0])
+    ctx.need(rd, 'a driver of interface.ready')
+    # "ready" promises that a request raised in this very cycle is dispatched: it may be raised only while the FSM is in
+    # the dispatch state -- whatever else holds (exact evaluation of every driver in every other state)
+    from ..fsm import lit_atoms, assignments, holds, eval_bool
+    for st_ in fsm.states:
+        if st_ == disp:
+            continue
+        live = []
+        for a in rd:
+            if a.state is not None and a.state != (fsm.id, st_):
+                continue
+            atoms_ = [x for l in a.guard for x in lit_atoms(l)]
+            leaves = sorted(set(q.bool_leaves(a.rhs)) | set(atoms_))
+            for asg in q.all_assignments(leaves):
+                if holds(a.guard, asg) and (a.rhs.op == 'const' and a.rhs.val or a.rhs.op != 'const' and eval_bool(a.rhs, asg)):
+                    live.append((a, {k: v for k, v in asg.items() if v}))
+                    break
+        ctx.ob('C45.ready-only-in-dispatch', 'TransactionPacketGenerator.ready@%s' % st_, not live, live[0][0].loc if live else fsm.state_loc[st_],
+               'interface.ready must be low outside the dispatch state: a request strobed while ready is high in state %s is never '
+               'dispatched; ready is raised there when %s' % (st_, live[0][1] if live else None))
+    in_disp = [a for a in rd if a.state is None or a.state == (fsm.id, disp)]
+    ctx.ob('C45.ready-only-in-dispatch', 'TransactionPacketGenerator.ready@dispatch', bool(in_disp), rd[0].loc,
+           'interface.ready is raised in the dispatch state')
     ctx.ob('C45.dispatch-is-init', 'TransactionPacketGenerator.dispatch', disp == fsm.init, fsm.loc, 'ready state is the initial state')
     un = unreachable_states(fsm)
     ctx.ob('C45.reachable', 'TransactionPacketGenerator.states', not un, fsm.loc, 'unreachable states: %s' % un)
